@@ -32,7 +32,8 @@ func workerRechecksCtx() bool {
 }
 
 func runDisableRace(c *rig.Ctx, dc DisableCase) bool {
-	if !workerRechecksCtx() {
+	if !workerRechecksCtx() && !c.Search {
+		// (in a search — a proof obligation or the tie broke, e.g. the fact above went false — the stream runs regardless)
 		c.Count("skipped:disable-with-tick-pending (the worker does not re-check its context)")
 		return true
 	}
